@@ -1,5 +1,5 @@
 """C05 -- stopping and resuming at any batch boundary does not change the result."""
-from ..persist import (rule_P0, rule_P1_P2, rule_P3, rule_P4_sampler, rule_P4_bound,
+from ..persist import (rule_P0, rule_P9, rule_P1_P2, rule_P3, rule_P4_sampler, rule_P4_bound,
                        rule_P5)
 from ..effects import rule_F3, rule_F4
 
@@ -32,6 +32,7 @@ def run(ctx):
                                  'n_networks', 'n_batch', 'vectorized', 'pass_dict',
                                  'neural_network_{}'})
     rule_P5(ctx, 'Sampler', init, 'self')
+    rule_P9(ctx, init, 'self')
     rule_F3(ctx)
     rule_F4(ctx)
     ctx.floor('P4', 25, 'incremental-update obligations')
